@@ -170,11 +170,57 @@ func c07Trees(c *Ctx) []node {
 			}
 		}
 	}
+	// depth 2 in the quick tier too: a nested Stack whose only way further down is a Condition holding a
+	// Stack (with and without a Stack sibling next to it)
+	for i, n := range nested {
+		if n.T != "CS" && n.T != "CSE" && n.T != "CA" {
+			continue
+		}
+		k := kinds[i%len(kinds)]
+		roots = append(roots,
+			node{T: "S", K: "AND", Kids: []node{{T: "S", K: k, Kids: []node{{T: "leaf"}, n}}}},
+			node{T: "S", K: "OR", Kids: []node{{T: "leaf"}, {T: "S", K: k, Kids: []node{n}}}},
+			node{T: "S", K: "AND", Kids: []node{{T: "A", K: k, Kids: []node{n, {T: "E", K: "OR"}}}}},
+			node{T: "S", K: "LIST", Kids: []node{{T: "CS", K: k, Kids: []node{{T: "leaf"}, n}}}})
+	}
 	// a few width-3 roots so that sibling substitution has room on the top level as well
 	for _, a := range nested[:min(len(nested), 12)] {
 		roots = append(roots, node{T: "S", K: "OR", Kids: []node{{T: "leaf"}, a, nested[len(nested)-1]}})
 	}
 	return roots
+}
+
+// c07Chains: the long regime. Single-child chains of depth 6..14 whose links rotate through Stack,
+// alias, pointer to alias and Condition-holding-a-Stack, ending in two leaves; paths: every prefix of
+// the way down, every such prefix with one index changed (to 1 and to -1), and one step beyond a leaf.
+func c07Chains(c *Ctx) (trees []node, paths [][][]int) {
+	depths := []int{6, 9, 10, 14}
+	if !c.Quick() {
+		depths = []int{5, 7, 8, 9, 10, 11, 12, 16, 17, 33}
+	}
+	links := []string{"S", "A", "CS", "PA", "S", "CA"}
+	for di, d := range depths {
+		cur := node{T: "S", K: "BASIC", Kids: []node{{T: "leaf"}, {T: "leaf"}}}
+		for l := 0; l < d; l++ {
+			cur = node{T: links[(l+di)%len(links)], K: kindNames[(l+di)%5], Kids: []node{cur}}
+		}
+		root := node{T: "S", K: "AND", Kids: []node{cur}}
+		var ps [][]int
+		way := make([]int, d+2) // d links below the root's slot 0, then the leaf at index 0
+		for n := 1; n <= len(way); n++ {
+			ps = append(ps, append([]int{}, way[:n]...))
+			for pos := 0; pos < n; pos++ {
+				for _, alt := range []int{1, -1} {
+					p := append([]int{}, way[:n]...)
+					p[pos] = alt
+					ps = append(ps, p)
+				}
+			}
+		}
+		ps = append(ps, append(append([]int{}, way...), 0), append(append([]int{}, way[:len(way)-1]...), 1), append(append([]int{}, way[:len(way)-1]...), 1, 0))
+		trees, paths = append(trees, root), append(paths, ps)
+	}
+	return
 }
 
 func c07Paths(maxLen, lo, hi int) [][]int {
@@ -218,7 +264,7 @@ func init() {
 		}
 		paths := c07Paths(maxLen, -1, 3)
 		optNames := []string{"default", "neg+fwd", "root-only", "children-only", "flags-after", "locked-down", "errored"}
-		c.Rule = "every tree of the bounded family (elements: leaf, nil, empty Stack, Condition(leaf), and nested Stack / alias / pointer-to-alias / Condition(Stack) / Condition(alias) / Condition(Stack) completed after construction; zero alias and nil pointer-to-alias siblings) x 7 option placements (4 for the index options, 3 that switch unrelated flags, mutex, FIFO, read-only, presentation settings or an earlier error on after filling) x every index path of length 0..max with indices in [-1,3]; oracle = stepwise descent written from the statement using the real Index/Convert*/Expression; non-trivial = distinct (tree, options, path) where the stepwise walk fails before the last index or succeeds at depth >= 2"
+		c.Rule = "every tree of the bounded family (elements: leaf, nil, empty Stack, Condition(leaf), and nested Stack / alias / pointer-to-alias / Condition(Stack) / Condition(alias) / Condition(Stack) completed after construction; zero alias and nil pointer-to-alias siblings) x 7 option placements (4 for the index options, 3 that switch unrelated flags, mutex, FIFO, read-only, presentation settings or an earlier error on after filling) x every index path of length 0..max with indices in [-1,3]; plus single-child chains of depth 6..14 (thorough: ..33) with every prefix of the way down, every one-index deviation from it and steps beyond a leaf; oracle = stepwise descent written from the statement using the real Index/Convert*/Expression; non-trivial = distinct (tree, options, path) where the stepwise walk fails before the last index or succeeds at depth >= 2"
 		c.Bound["trees"] = len(trees)
 		c.Bound["paths_per_tree"] = len(paths)
 		c.Bound["max_path_len"] = maxLen
@@ -240,6 +286,17 @@ func init() {
 				c.States.Add(1)
 			}
 		})
+		chains, chainPaths := c07Chains(c)
+		for i := range chains {
+			for _, on := range []string{"default", "neg+fwd", "errored"} {
+				s := chains[i].buildStack("r", c07Opts(on))
+				for _, p := range chainPaths[i] {
+					c07Check(c, s, c07Case{chains[i], on, p}, i, true)
+				}
+				c.States.Add(1)
+			}
+		}
+		c.Bound["chain_depths"] = len(chains)
 		c.Traces.Store(c.Transitions.Load())
 		c.Evals.Store(c.Transitions.Load())
 		c.Sample(c07Case{trees[0], "default", paths[len(paths)/2]})
